@@ -4,6 +4,7 @@ import (
 	"fmt"
 	"go/token"
 	"go/types"
+	"runtime"
 	"strings"
 	"sync"
 
@@ -119,7 +120,21 @@ func (m *Machine) visitInstr(fr *frame, instr ssa.Instruction) continuation {
 	m.steps++
 	m.curFrame = fr
 	if m.steps > m.maxSteps {
-		panic(unsupported{"step limit exceeded (unwinding failure)"})
+		if schedDebug {
+			buf := make([]byte, 1<<16)
+			n := runtime.Stack(buf, false)
+			for _, l := range strings.Split(string(buf[:n]), "\n") {
+				if strings.Contains(l, "main.(*Machine).") && !strings.Contains(l, "callSSA") && !strings.Contains(l, "visitInstr") && !strings.Contains(l, "runFrame") && !strings.Contains(l, ".call(") {
+					fmt.Println("STACK", strings.TrimSpace(l)[:60])
+				}
+			}
+		}
+		panic(unsupported{fmt.Sprintf("step limit exceeded (unwinding failure) in g%d(%s) %s <- %s", fr.g.id, fr.g.name, fr.fn.Name(), func() string {
+			if fr.caller != nil {
+				return fr.caller.fn.Name()
+			}
+			return ""
+		}())})
 	}
 	switch instr := instr.(type) {
 	case *ssa.DebugRef:
@@ -189,6 +204,9 @@ func (m *Machine) visitInstr(fr *frame, instr ssa.Instruction) continuation {
 		}
 		m.onAccess(fr, addr, true, instr)
 		*addr = copyVal(fr.get(instr.Val))
+		if len(m.watches) > 0 {
+			m.fireWatches(fr, instr)
+		}
 
 	case *ssa.If:
 		succ := 1
@@ -733,4 +751,27 @@ func shortPos(prog *ssa.Program, pos token.Pos) string {
 		f = f[i+1:]
 	}
 	return fmt.Sprintf("%s:%d", f, p.Line)
+}
+
+// fireWatches runs the harness monitors registered (vWatchStore) for the field just written by program code: the
+// monitor observes the state change at the very instruction that makes it, so the harness need not wrap (and thereby
+// serialise) the function that contains the write.
+func (m *Machine) fireWatches(fr *frame, instr *ssa.Store) {
+	fa, ok := instr.Addr.(*ssa.FieldAddr)
+	if !ok || m.isHarnessFn(fr.fn) {
+		return
+	}
+	what := describeAddr(fa)
+	for _, w := range m.watches {
+		if strings.HasSuffix(what, w.field) {
+			g := fr.g
+			if g != nil {
+				g.atomicExplicit++
+			}
+			m.call(fr, 0, w.fn, []Value{Iface{T: fa.X.Type(), V: fr.get(fa.X)}})
+			if g != nil {
+				g.atomicExplicit--
+			}
+		}
+	}
 }
